@@ -30,20 +30,18 @@ type gate struct {
 }
 
 type gateHasher struct {
-	inner lib.Hasher
-	set   uint
-	g     *gate
+	lib.Hasher // the wrapped set: GetFormatID / IsValid are its own, whatever their signatures
+	set        uint
+	g          *gate
 }
 
-func (h *gateHasher) GetFormatID() string                  { return h.inner.GetFormatID() }
-func (h *gateHasher) IsValid(hashStr string) (bool, error) { return h.inner.IsValid(hashStr) }
 func (h *gateHasher) Generate(password string) (string, error) {
 	h.g.pass(gateEv{"gen", password, h.set})
-	return h.inner.Generate(password)
+	return h.Hasher.Generate(password)
 }
 func (h *gateHasher) Check(password, hashStr string) (bool, error) {
 	h.g.pass(gateEv{"check", password, h.set})
-	return h.inner.Check(password, hashStr)
+	return h.Hasher.Check(password, hashStr)
 }
 
 func (g *gate) pass(e gateEv) {
@@ -62,7 +60,7 @@ func (g *gate) pass(e gateEv) {
 func (a *vAgent) installGate() *gate {
 	g := &gate{ev: make(chan gateEv), release: make(chan bool)}
 	for id, h := range a.st.dir.Params {
-		a.st.dir.Params[id] = &gateHasher{inner: h, set: id, g: g}
+		a.st.dir.Params[id] = &gateHasher{Hasher: h, set: id, g: g}
 	}
 	return g
 }
